@@ -128,6 +128,12 @@ class C16(Property):
             cases.append({"name": f"ref {tagname}", "shape": sh, "plan": [], "max_retries": 6, "ref": True})
             for i, pl in enumerate(plans(rng, sh, quick)):
                 cases.append({"name": f"{tagname} plan{i} {json.dumps(pl)}", "shape": sh, "plan": pl, "max_retries": 6})
+        # corpus: the known finding (a producer shared by >= max_retries consumers, lost once)
+        sh6 = {"kind": "scatter", "m": 6}
+        if not any(c["shape"] == sh6 and c.get("ref") for c in cases):
+            cases.append({"name": f"ref {json.dumps(sh6, sort_keys=True)}", "shape": sh6, "plan": [], "max_retries": 6, "ref": True})
+        cases.append({"name": "corpus scatter6 one fail-stop transfer failure of b/0.0 deleting a", "shape": sh6, "max_retries": 6,
+                      "plan": [{"step": "/b", "tag": "0.0", "phase": "transfer", "kind": "failstop", "count": 1, "lose": [["/b", "0.0"], ["/a", "0"]]}]})
         results = {}
         for case, status, r in pmap(recov.run_case, cases, timeout=900, workers=6):
             results[case["name"]] = (case, status, r)
